@@ -598,3 +598,74 @@ contract(RPY + 'tagged', props=['C19'], params=OrderedDict([('config', None), ('
          spec_env=dict(ENV, collection_is_as_the_options_say=collection_is_as_the_options_say),
          ensures=[('tagged-run-keeps-exactly-the-tagged-tests-listing-keeps-none-and-names-each-owner-once',
                    'collection_is_as_the_options_say(items)')], max_paths=100000)
+
+
+# ---------------------------------------------------------------------------
+# _resolve_reference_path itself (the assertions use it through the assumed "function of (path, kind)" contract
+# above): an absolute path, or any path when no location is configured, is returned as it is; a relative one is
+# joined to the location of its kind, or to the default location when the kind has none; with neither, an exception.
+# ---------------------------------------------------------------------------
+
+_LOCATION_TABLES = ({}, {None: 'default'}, {None: 'default', 'k': 'kdir'}, {'k': 'kdir'}, {'k': 'kdir', 'j': 'jdir'})
+
+
+def _resolve_view(it):
+    mod = extract.load_module('tdda/referencetest/referencetest.py')
+    k = it.path.choose([True] * len(_LOCATION_TABLES))
+    table = {key: it.fresh_str('location_of_%s' % (key if key is not None else 'default'))
+             for key in _LOCATION_TABLES[k]}
+    it.ghost['locations'] = table
+    o = SObj('ReferenceTest', {'reference_data_locations': table}, label='self')
+    o.repo_class = mod.classes['ReferenceTest']
+    return o
+
+
+def _resolve_entry(it, senv):
+    ospath = SObj('module', {'__open__': False}, label='os.path')
+    isabs = it.fresh(T.bool, 'path_is_absolute')
+    it.ghost['isabs'] = isabs
+    ospath.methods['isabs'] = Builtin(lambda it2, self, p: isabs, 'os.path.isabs')
+
+    def join(it2, self, d, p):
+        r = it2.fresh_str('joined')
+        it2.ghost.setdefault('joins', []).append((d, p, r))
+        return r
+    ospath.methods['join'] = Builtin(join, 'os.path.join')
+    it.spec_env['os'] = SObj('module', {'__open__': False, 'path': ospath}, label='os')
+
+
+@specfn
+def resolved_as_documented(it, path, kind, result):
+    table = it.ghost['locations']
+    joins = it.ghost.get('joins', [])
+    if not table:
+        return result is path and not joins
+    use = kind if kind in table else None
+    if use not in table:
+        # only an absolute path comes back (unchanged); for a relative one an exception is the documented outcome
+        return SBool(z3.And(it.ghost['isabs'].z, z3.BoolVal(result is path and not joins)))
+    joined = (len(joins) == 1 and joins[0][0] is table[use] and joins[0][1] is path and result is joins[0][2])
+    return SBool(z3.If(it.ghost['isabs'].z, z3.BoolVal(result is path and not joins), z3.BoolVal(bool(joined))))
+
+
+@specfn
+def no_location_for(it, kind):
+    table = it.ghost['locations']
+    return bool(table) and kind not in table and None not in table
+
+
+@specfn
+def path_is_absolute(it):
+    return it.ghost['isabs']
+
+
+_rrp_body = Contract(RT + 'ReferenceTest._resolve_reference_path', props=['C10'], name='_resolve_reference_path[body]',
+         params=dict(path=T.str, kind=T.union(T.const(None), T.const('k'), T.const('other'))),
+         self_view=_resolve_view, on_entry=_resolve_entry,
+         spec_env=dict(ENV, resolved_as_documented=resolved_as_documented, no_location_for=no_location_for,
+                       path_is_absolute=path_is_absolute),
+         result=T.none,
+         allow_raise={'Exception': 'no_location_for(kind) and not path_is_absolute()'},
+         ensures=[('absolute-or-unconfigured-paths-unchanged-relative-ones-joined-to-the-location-of-their-kind',
+                   'resolved_as_documented(path, kind, result)')])
+REGISTRY[_rrp_body.ident + '#body'] = _rrp_body
